@@ -38,7 +38,10 @@ ListVariants ==
   \cup {[Default EXCEPT !.pairs = q] : q \in SeqsUpTo(PairU)}
   \cup {[Default EXCEPT !.used = q] : q \in SeqsUpTo(UsedU)}
   \cup {[Default EXCEPT !.msgrs = q] : q \in SeqsUpTo(MsgrU)}
-Universe == {WithScalars(x, sc) : x \in ListVariants, sc \in Scalars}
+\* explicit zero vs. absent for every optional scalar (on the default lists)
+ZeroScalars == [owner : {"a1"}, attMgr : {"a2"}, bm : {-1, 0, 1}, sr : {-1, 0, 1}, maxBody : {-1, 0, 200}, nextNonce : {-1, 0, 3},
+                threshold : {-1, 0, 2}]
+Universe == {WithScalars(x, sc) : x \in ListVariants, sc \in Scalars} \cup {WithScalars(Default, sc) : sc \in ZeroScalars}
 
 Ledger0 == [bal |-> [a \in AddrSyms |-> 0], supply |-> 0]
 
